@@ -348,7 +348,32 @@ fn compound(src: &mut Src, st: &mut Stats, _env: &Env) -> CaseResult {
                     }
                 }
             };
-            let rhs_txt = r.as_ref().map(|r| format!(".not_null({})", r)).unwrap_or_default();
+            let mut rhs_txt = r.as_ref().map(|r| format!(".not_null({})", r)).unwrap_or_default();
+            // ... or a right-hand side that is itself a bracket form written directly after the
+            // projection (a second filter, wildcard, index or slice): it belongs to the projection
+            // and is applied to each element separately
+            let adjacent = near.is_none() && src.chance(60);
+            let (r, l, lv, lj) = if adjacent {
+                let adj = *src.pick(&["[?@]", "[?@ > `1`]", "[?a]", "[*]", "[0]", "[-1]", "[1:]", "[::-1]", "[*][0]", "[?@][0]", "[?@ > `4`][?@ > `6`]", "[*].a", "[0][0]", "[?type(@) == 'number']"]);
+                rhs_txt = adj.to_string();
+                if src.chance(100) {
+                    // a left side with arrays (and other things) as elements
+                    let lit = *src.pick(&["`[[1, 5, 7], [], [2, 9], {\"n\": 6}, 8]`", "`[[{\"a\": 1}, {\"a\": null}], [[3], 4], \"s\", null, [0, 2]]`", "`[[[1, 2], [3]], [[]], [5, [6, 7]]]`"]);
+                    let v = run(lit, &dt).map_err(|m| harness_err(m, lit, &dt))?;
+                    let j = match &v {
+                        Out::Val(j) => Some(j.clone()),
+                        _ => None,
+                    };
+                    (Some(adj.to_string()), lit.to_string(), v, j)
+                } else {
+                    (Some(adj.to_string()), l, lv, lj)
+                }
+            } else {
+                (r, l, lv, lj)
+            };
+            if adjacent {
+                st.class("projection:adjacent-bracket-rhs");
+            }
             let (c, items, form): (String, Option<Vec<J>>, &str) = match kind {
                 2 => (format!("({})[*]{}", l, rhs_txt), lj.as_ref().and_then(|j| j.as_arr().cloned()), "listwild"),
                 3 => {
